@@ -103,8 +103,13 @@ fn explore(chains: &BTreeMap<(usize, LogIdT), Vec<Op>>, grid: &[(usize, Grid)], 
                         let shape = if sa == "sending" && sb == "sending" { "both-blocked-sending".to_string() } else { format!("A-{sa}-B-{sb}") };
                         let class = if g.c == 0 {
                             "capacity-0"
-                        } else if shape == "both-blocked-sending" {
+                        } else if shape == "both-blocked-sending" && g.na >= g.c && g.nb >= g.c {
+                            // the recorded finding: each side has at least `c` operations to send
                             "volume-exceeds-capacity"
+                        } else if shape == "both-blocked-sending" {
+                            // both sides block sending although one of them has fewer operations
+                            // to send than the transport holds: not the recorded finding
+                            "volume-below-capacity"
                         } else {
                             "buffered"
                         };
